@@ -354,7 +354,7 @@ def instances(tier, seed):
         for ks in key_sets(width):
             n += 1
             yield 'h_canon', dict(width=width, keys=list(orders(ks, n)[n % 2]), vk=['u8', 'u64', 'cell'][n % 3])
-    w4 = rnd.sample(list(key_sets(4)), 120 if tier == 'quick' else 15000)
+    w4 = rnd.sample(list(key_sets(4)), 120 if tier == 'quick' else 3000)
     for width in (8, 32, 64, 256, 267, 1023):
         top = (1 << width) - 1
         for ks in ([0], [top], [0, top], [0, 1], [top, top - 1], [0, 1, 2, 3], [0, top, top - 1, 1 << (width - 1), 1, 1 << (width // 2)],
@@ -407,7 +407,7 @@ INSTANCE_TIMEOUT = {'quick': 200, 'thorough': 1200}
 BOUNDS = {
     'label kind kernel': 'all 0 <= n <= m <= 1023 and both values of the all-equal flag (symbolic), if detect_label_type/is_same exist',
     'label writer/reader': 'key sizes ' + str(M_SET) + ' (quick: a subset), label lengths 0..12, m-1, m; label bits symbolic (labels longer than 24 bits: 8 symbolic bits at each end), plus all-equal labels of a symbolic bit',
-    'canonical trees': 'every key set of widths 1..3, width 4 (quick: 120 seeded sets; thorough: 15 000 seeded sets of the 65 535), selected sets of widths 8..1023; '
+    'canonical trees': 'every key set of widths 1..3, width 4 (quick: 120 seeded sets; thorough: 3 000 seeded sets of the 65 535), selected sets of widths 8..1023; '
                        'symbolic keys as in C09',
     'parsers': '18 trees of up to 4 leaves (widths 1..32): every valid label kind assignment x every antichain of pruned sub-trees '
                '(quick: 24 seeded combinations per tree; thorough: up to 600), plain and augmented, direct and through the HashmapE/HashmapAugE wrapper',
